@@ -1,4 +1,5 @@
 import PynnVerif.Proofs.Connect
+import PynnVerif.Proofs.AltSeen
 
 /-!
 # C20 — `connect_graph` terminates and returns a connected supergraph
@@ -218,15 +219,104 @@ end Graph
 /-! ## The alternating loop of `find_component_connection_edge` -/
 
 /-
-Full statement wanted (NOT proved, observed under a watchdog / cycle detector by harness/c20.py):
-for the real restricted search `custom_search_closure` — approximate, seeded with the other side's
-current points, heap order deciding ties — the loop `while changed[0] or changed[1]` exits on every
-input.  It is in fact FALSE for the real code when distances tie: on duplicate points and on
-integer-lattice data the loop revisits a state and never exits (found by the harness; see
-`alternating_loop_tie_cycle` for the same phenomenon inside the abstraction).
+The loop as it stands in /repo (since the repair of D30) carries a cycle guard:
 
-Proved part: the exact-nearest-neighbour abstraction without ties.
+    seen_states = set()
+    while changed[0] or changed[1]:
+        state = (query_side, indices[0].tobytes(), indices[1].tobytes(), bool(changed[0]), bool(changed[1]))
+        if state in seen_states: break
+        seen_states.add(state)
+        ...
+
+`altLoopSeen srch fuel idx0 idx1` is that loop for an ARBITRARY deterministic restricted search
+`srch side queries candidates` (= the column `inds[:, 0]` of what `custom_search_closure` returns):
+approximate, seeded with the other side's current points, ties broken by heap position — nothing is
+assumed about it except that it returns point numbers (`< N`).  The result is the loop key at exit,
+whether the guard fired, and the number of searches performed.  harness/c20.py replays the real
+loop's rounds against this function (same states round by round, same number of rounds, same
+best edge).
 -/
+
+/-- **Termination of the alternating loop — full statement.**  Whatever the restricted search returns
+(any deterministic function of the loop state into point numbers `< N`), the loop of
+`find_component_connection_edge` exits, after at most `(altUniv N idx0 idx1).length` searches. -/
+theorem alternating_loop_terminates (srch : Bool → List Nat → List Nat → List Nat) (N : Nat)
+    (hs : ∀ side q c, ∀ x ∈ srch side q c, x < N) (idx0 idx1 : List Nat) :
+    ∃ r, altLoopSeen srch (altUniv N idx0 idx1).length idx0 idx1 = some r :=
+  altLoopSeen_terminates srch N hs idx0 idx1
+
+/-- **The guard is transparent.**  On every input on which the loop *without* the guard exits, the loop
+with the guard exits in the same state after the same number of searches, and not through the guard:
+the repair changes no result that existed before it. -/
+theorem cycle_guard_transparent (srch : Bool → List Nat → List Nat → List Nat) (fuel : Nat)
+    (idx0 idx1 : List Nat) (k' : AltKey)
+    (h : plainLoop (altKeyStep srch) altKeyCont fuel (⟨idx0, idx1, false, true, true⟩, true, true) = some k') :
+    ∃ n ≤ fuel, ∀ fuel' ≥ n, altLoopSeen srch fuel' idx0 idx1 = some (k', false, n) :=
+  seenLoop_transparent fuel _ k' h
+
+/-- **The guard fires only on divergence.**  If the loop leaves through `break`, the unguarded loop
+would never have exited (the justification given in the `fix:` commit, proved). -/
+theorem cycle_guard_fires_only_on_divergence (srch : Bool → List Nat → List Nat → List Nat) (fuel : Nat)
+    (idx0 idx1 : List Nat) (k : AltKey) (r : Nat)
+    (h : altLoopSeen srch fuel idx0 idx1 = some (k, true, r)) :
+    ∀ fuel', plainLoop (altKeyStep srch) altKeyCont fuel' (⟨idx0, idx1, false, true, true⟩, true, true) = none :=
+  seenLoop_break_sound fuel _ k r h
+
+/-- **The exit state is the state after `r` searches**; every earlier state had a `changed` flag set, and on
+a normal exit both flags are clear. -/
+theorem alternating_loop_exit_state (srch : Bool → List Nat → List Nat → List Nat) (fuel : Nat)
+    (idx0 idx1 : List Nat) (k : AltKey) (fired : Bool) (r : Nat)
+    (h : altLoopSeen srch fuel idx0 idx1 = some (k, fired, r)) :
+    k = (altKeyStep srch)^[r] (⟨idx0, idx1, false, true, true⟩, true, true) ∧
+    (∀ i < r, altKeyCont ((altKeyStep srch)^[i] (⟨idx0, idx1, false, true, true⟩, true, true)) = true) ∧
+    (fired = false → k.1.ch0 = false ∧ k.1.ch1 = false) := by
+  obtain ⟨h1, h2, h3⟩ := seenLoop_on_path fuel _ k fired r h
+  refine ⟨h1, h2, fun hf => ?_⟩
+  have := h3 hf
+  simpa [altKeyCont] using this
+
+/-- **Exact search without ties: the guard never fires.**  Under the hypotheses of
+`alternating_loop_terminates_partial` the repaired loop exits normally, in the state the unguarded loop
+reaches. -/
+theorem exact_search_guard_silent (nn : Bool → Nat → Nat) (d : Nat → Nat → Nat)
+    (A B : Nat → Prop) (hnn : ExactNN nn d A B) (idx0 idx1 : List Nat) (h0 : ∀ a ∈ idx0, A a) :
+    ∃ n k', ∀ fuel' ≥ n, altLoopSeen (nnSearch nn) fuel' idx0 idx1 = some (k', false, n) := by
+  obtain ⟨fuel, st', hst⟩ := altLoop_terminates hnn ⟨idx0, idx1, false, true, true⟩
+    (by simpa [AltState.q, dom] using h0)
+  rw [altLoop_eq_plainLoop nn fuel _ true true] at hst
+  cases hp : plainLoop (altKeyStep (nnSearch nn)) altKeyCont fuel (⟨idx0, idx1, false, true, true⟩, true, true) with
+  | none => simp [hp] at hst
+  | some k' =>
+    obtain ⟨n, _, hn⟩ := cycle_guard_transparent (nnSearch nn) fuel idx0 idx1 k' hp
+    exact ⟨n, k', hn⟩
+
+/-- **The index sets never leave their components.**  If the restricted search answers points of one component with
+points of the other (it walks the search graph from seeds inside that component, C16), then at every iteration
+`indices[0]` lies in the first and `indices[1]` in the second component. -/
+theorem alternating_loop_stays_in_components (srch : Bool → List Nat → List Nat → List Nat) (A B : Nat → Prop)
+    (hcl0 : ∀ q c, (∀ x ∈ q, A x) → ∀ y ∈ srch false q c, B y)
+    (hcl1 : ∀ q c, (∀ x ∈ q, B x) → ∀ y ∈ srch true q c, A y)
+    (idx0 idx1 : List Nat) (h0 : ∀ x ∈ idx0, A x) (h1 : ∀ x ∈ idx1, B x) (n : Nat) :
+    (∀ x ∈ ((altKeyStep srch)^[n] (⟨idx0, idx1, false, true, true⟩, true, true)).1.idx0, A x) ∧
+    (∀ x ∈ ((altKeyStep srch)^[n] (⟨idx0, idx1, false, true, true⟩, true, true)).1.idx1, B x) :=
+  altKey_iter_in_components srch A B hcl0 hcl1 _ h0 h1 n
+
+/-- **The recorded edge joins the two components** (hypothesis `hnew` of `connect_graph_model`): whatever holds of the
+initial pair `(indices[0][0], indices[1][0])` and of every `(query point, result)` pair of a round holds of `best_edge`
+after the round — in particular "the endpoints lie in different components". -/
+theorem best_edge_joins {P : Type} [LT P] [DecidableLT P] (Q : Int → Int → Prop)
+    (rows : List (Int × List (Int × P))) (b : Best P) (hb : Q b.a b.b) (hrows : ∀ r ∈ rows, ∀ e ∈ r.2, Q r.1 e.1) :
+    Q (bestRound rows b).a (bestRound rows b).b :=
+  bestRound_pred Q rows b hb hrows
+
+/-- **Best-edge bookkeeping of one round** (`if dists[i, j] < best_dist: …`): the recorded edge is the previous
+one or `(query point, result)` of an entry of this round with exactly that entry's distance; the recorded
+distance bounds the previous best and every distance of the round from below (no NaN: a linear order). -/
+theorem best_edge_round {P : Type} [LinearOrder P] (rows : List (Int × List (Int × P))) (b : Best P) :
+    let b' := bestRound rows b
+    (b' = b ∨ ∃ r ∈ rows, ∃ e ∈ r.2, b' = ⟨e.2, r.1, e.1⟩) ∧ b'.dist ≤ b.dist ∧
+      ∀ r ∈ rows, ∀ e ∈ r.2, b'.dist ≤ e.2 :=
+  bestRound_spec rows b
 
 /-- **Termination of the alternating loop, exact search, no ties** (`…_partial`: the real search is
 approximate and breaks ties by heap position).  `A`, `B` = the two components, `d a b` = the
@@ -324,5 +414,16 @@ example : ExactNN (fun side _ => if side then 1 else 11)
 /-- … and the loop really exits on it, at the mutually nearest pair `(1, 11)`. -/
 example : altLoop (fun side _ => if side then 1 else 11) 6 ⟨[0, 1], [10, 11], false, true, true⟩
     = some ⟨[1], [11], false, false, false⟩ := by decide
+
+/-- the tie cycle of `alternating_loop_tie_cycle` under the repaired loop: the key of the 4th search recurs
+at the 8th, the guard fires after 7 searches -/
+example : (altLoopSeen (nnSearch (fun side x =>
+      if side then (if x = 10 then 1 else 0) else (if x = 0 then 10 else 11))) 20 [0] [10]).map (fun r => (r.2.1, r.2.2))
+    = some (true, 7) := by decide
+/-- the tie-free example exits normally after the same 4 searches as the unguarded loop -/
+example : (altLoopSeen (nnSearch (fun side _ => if side then 1 else 11)) 20 [0, 1] [10, 11]).map (fun r => (r.1.1, r.2.1, r.2.2))
+    = some (⟨[1], [11], false, false, false⟩, false, 4) := by decide
+/-- best-edge bookkeeping on a concrete round: strict `<` keeps the first of two equal minima -/
+example : (bestRound [((5 : Int), [((7 : Int), (3 : Nat)), (8, 2)]), (6, [(9, 2), (4, 6)])] ⟨10, -1, -1⟩ : Best Nat).b = 8 := by decide
 
 end Pynn.C20
